@@ -142,6 +142,9 @@ func (g *pgen) mainStmts(depth int, declared map[string]int) []zn.Stmt {
 					inner[k] = v
 				}
 				body := g.mainStmts(depth+1, inner)
+				if len(body) == 0 {
+					body = []zn.Stmt{show("blk")}
+				}
 				switch g.pick(3, "blk") {
 				case 0:
 					out = append(out, &zn.If{Conds: []zn.Expr{&zn.BoolLit{V: true}}, Blocks: [][]zn.Stmt{body}})
@@ -187,7 +190,16 @@ func (g *pgen) funcBody(self string, handled bool) []zn.Stmt {
 	}}})
 	body = append(body, show(self+"-M", &zn.Var{Name: "M"}))
 	if handled {
-		switch g.pick(5, "fault") {
+		switch g.pick(7, "fault") {
+		case 5, 6:
+			// a call with the wrong number of arguments: none of the callee's body runs, the
+			// error is handled below, and nothing of the attempted call may remain
+			if g.pick(2, "arity-kind") == 0 {
+				body = append(body, &zn.ExprStmt{E: &zn.Call{Name: "F1"}})
+			} else {
+				body = append(body, &zn.Let{Names: []string{"N"}, E: &zn.Call{Name: "F3", Args: []zn.Expr{&zn.Num{Val: 1}, &zn.Num{Val: 2}}}})
+			}
+			g.labels["handled-arity-mismatch"] = true
 		case 4:
 			// fault inside a callee without handler: its frame must not outlive the handling
 			body = append(body, &zn.ExprStmt{E: &zn.Call{Name: "F3", Args: []zn.Expr{&zn.Var{Name: "P"}}}})
